@@ -137,6 +137,37 @@ def main():
                 l3 = pg.Inference.from_json(i3.to_json())
                 if dict(l3.x0) != dict(i3.x0):
                     extra['failures'].append({'what': 'start values of a finished run differ after save/load'})
+                # REPEATED save/load cycles of an Inference that has run (two-epoch model, SFS loss on the block-counting space,
+                # one bootstrap): results unchanged after every cycle, the loaded object still usable, the original not altered
+                def coal2(N0):
+                    return pg.Coalescent(n=4, demography=pg.Demography(pop_sizes={'pop_0': {0: N0, 0.5: 1.0}}), parallelize=False)
+                obs2 = [float(x) * 100 for x in coal2(2.0).sfs.mean.data]
+
+                def loss2(c, o):
+                    n_ = len(o)
+                    return float(pg.PoissonLikelihood().compute(observed=np.asarray(o)[1:n_ - 1], modelled=100 * c.sfs.mean.data[1:n_ - 1]))
+                i4 = pg.Inference(bounds={'N0': (0.25, 8.0)}, coal=coal2, loss=loss2, observation=obs2, n_runs=2, parallelize=False, pbar=False,
+                                  seed=3, resample=lambda o, rng: [float(x) for x in np.asarray(o) * (1 + 0.01 * rng.standard_normal(len(o)))])
+                i4.run()
+                b4 = i4.create_bootstrap(); b4.run(); i4.add_bootstrap(b4)
+                n_cache = len(i4._block_counting_state_space._cache)
+                cur = i4
+                for cyc in range(3):
+                    try:
+                        cur = pg.Inference.from_json(cur.to_json())
+                        ok = ({k: float(v) for k, v in cur.params_inferred.items()} == {k: float(v) for k, v in i4.params_inferred.items()}
+                              and float(cur.loss_inferred) == float(i4.loss_inferred) and list(map(float, cur.loss_runs)) == list(map(float, i4.loss_runs))
+                              and cur.bootstraps.values.tolist() == i4.bootstraps.values.tolist()
+                              and abs(cur.get_coal(N0=1.5).tree_height.mean - coal2(1.5).tree_height.mean) < 1e-12)
+                        if not ok:
+                            extra['failures'].append({'what': f'Inference results changed by save/load cycle number {cyc + 1} after running'})
+                            break
+                    except Exception as e_:
+                        extra['failures'].append({'what': f'save/load cycle number {cyc + 1} of an Inference that has run raised',
+                                                  'error': type(e_).__name__ + ': ' + str(e_)[:200]})
+                        break
+                if len(i4._block_counting_state_space._cache) != n_cache:
+                    extra['failures'].append({'what': 'saving an Inference altered the original object (shared state-space cache)'})
                 for data in (np.array([[0.0, np.inf, 2.0], [3.0, -np.inf, np.nan], [6.0, 7.0, 8.5]]),
                              np.arange(9).reshape(3, 3)):
                     a0 = pg.SFS2(data)
